@@ -48,11 +48,56 @@ func (c Cfg) String() string {
 
 // Inst is a live instance of one implementation.
 type Inst struct {
-	Cfg Cfg
-	S   *u.Stump
-	P   *u.Pollard
-	M   *u.MapPollard
-	ar  arena
+	Cfg  Cfg
+	S    *u.Stump
+	P    *u.Pollard
+	M    *u.MapPollard
+	ar   arena
+	held []heldResult
+}
+
+// heldResult is a slice the library RETURNED some calls ago and the caller still holds, next to a copy
+// taken the moment it was returned. A library that answers from a buffer it reuses (or hands out its
+// own state) changes the caller's earlier answer behind its back.
+type heldResult struct {
+	what string
+	u64  []uint64
+	u64c []uint64
+	hs   []Hash
+	hsc  []Hash
+}
+
+// hold takes over slices the library returned (call it when the answer has been judged): the caller
+// OVERWRITES them - they are its own - and keeps them; checkHeld verifies that every slice still held
+// reads as the caller left it and keeps the last few. A library answering from a buffer it reuses, or
+// handing out its own state, either changes the held slice behind the caller's back or serves the
+// caller's scribble as its next answer (which the ordinary oracles then see).
+func (in *Inst) hold(what string, u64 []uint64, hs []Hash) {
+	if in.ar.off {
+		return
+	}
+	for i := range u64 {
+		u64[i] = 0xdeadbeef00000000 + uint64(i)
+	}
+	for i := range hs {
+		hs[i] = Hash{0xde, 0xad, byte(i)}
+	}
+	in.held = append(in.held, heldResult{what: what, u64: u64, u64c: cloneU64(u64), hs: hs, hsc: cloneHashes(hs)})
+}
+
+func (in *Inst) checkHeld() error {
+	for _, h := range in.held {
+		if !eqU64(h.u64, h.u64c) {
+			return fmt.Errorf("%s: the slice returned by an earlier %s (and overwritten by the caller since) changed after later calls: the caller left %v there and now reads %v", in.Cfg, h.what, h.u64c, h.u64)
+		}
+		if !eqHashes(h.hs, h.hsc) {
+			return fmt.Errorf("%s: the hashes returned by an earlier %s (and overwritten by the caller since) changed after later calls: the caller left %s there and now reads %s", in.Cfg, h.what, shortHs(h.hsc), shortHs(h.hs))
+		}
+	}
+	if n := len(in.held); n > 6 {
+		in.held = append(in.held[:0:0], in.held[n-6:]...)
+	}
+	return nil
 }
 
 // arena hands out the argument slices of successive library calls from the SAME two buffers, as a
@@ -289,6 +334,12 @@ func (in *Inst) checkRoots(v *model.View) error {
 		if r[i] != v.Roots[i] {
 			return fmt.Errorf("%s: root %d is %s, reference %s (N=%d)", in.Cfg, i, shortH(r[i]), shortH(v.Roots[i]), v.N)
 		}
+	}
+	if in.S == nil { // a stump's Roots field is its state, not an answer
+		if err := in.checkHeld(); err != nil {
+			return err
+		}
+		in.hold("GetRoots", nil, r)
 	}
 	return nil
 }
